@@ -377,7 +377,7 @@ func checkC11(c *Ctx) {
 	r.Rule("C11.b", "the byte after a backslash is copied only as the second half of a pair written in input order; ParseSInterP separates brace escapes", 2)
 	r.Rule("C11.c", "every metacharacter has a branch whose writes are exactly the layer's escape", 8)
 	r.Rule("C11.d", "hole marker is the constant %s and the hole name is an untransformed sub-string of the input", 2)
-	r.Rule("C11.anchor", "the scanners' buffers feed the layers the table says (emission templates and token routing)", 5)
+	r.Rule("C11.anchor", "the scanners' buffers feed the layers the table says (emission templates, token routing, frt.SInterP -> fmt.Sprintf with toS-mapped arguments)", 8)
 
 	m := c.Load("fc", true)
 	if m == nil {
@@ -632,4 +632,14 @@ func checkC11Anchors(c *Ctx) {
 		r.Undecided("C11.anchor", "parseAtom", "definition", "fc", "anchor function not found")
 	}
 	_ = ir.FrtPath
+	// run-time side of an interpolated literal: frt.SInterP forwards the format to fmt.Sprintf unchanged and maps every
+	// argument through toS in order; toS renders integers in decimal, strings as themselves, everything else with %v.
+	var sp []termSpec
+	for _, t := range c14Specs["pkg/frt"] {
+		if t.fn == "SInterP" {
+			sp = append(sp, t)
+		}
+	}
+	checkTermSpecsOpt(c, "C11.anchor", "pkg/frt", sp, false)
+	checkToSRule(c, "C11.anchor")
 }
